@@ -12,6 +12,10 @@ CLAIMED = {
   "text": "Bounded symbolic model checking of the real utility.StrToBigInt / BigIntToStr / FormatDecimalForERC20 / FormatDecimalForRocket: for every integer below 2^256 and every decimal string within the stated digit counts the solver shows exact conversion (no binary rounding), with big.Float rounding modelled by the error bound of the precision and mode the code actually passes.",
   "note": "Trusted: gosym, z3, the interval model of math/big.Float rounding (over-approximation: unsat is sound; sat is replayed against the real library, several models are tried). A change that is wrong only on inputs the interval model cannot pin down may surface as INCONCLUSIVE instead of VIOLATION.",
  },
+ "C02": {
+  "text": "Bounded symbolic model checking of the real trie (TryUpdate/TryDelete/TryGet/Hash/Commit/NodeDatabase.Commit/reopen, hasher, node codec, hex-prefix encoding) against an independent in-harness transcription of the Yellow Paper root definition: for every history within the stated bounds and every value byte, reads return the last value written and the root equals the specification root; encoding lemmas for every nibble string within bounds.",
+  "note": "Trusted: gosym and its models, z3, Keccak as an injective uninterpreted function on symbolic input. Key shapes are a fixed set of six (prefix relations, shared prefixes); histories are short (2, thorough 3).",
+ },
 }
 PENDING = "check not built yet in this session (planned, see DESIGN.md section 5)"
 NA = {
